@@ -78,6 +78,13 @@ CLAIMS = {
             "non-normalised Jacobian inputs (chord/tangent relations), and scalar multiplication by four routes against the reference with chains for a sample. Sampling is boundary-biased, not exhaustive.",
             "Trusted: TLC; witnesses cannot make a wrong result pass; reference [k]P and exponentiation values. Thorough adds the ENABLE_SM2_AMD64 build.",
             "4/C13"),
+    "C14": ("model_checking",
+            "TLC enumeration of DerVec.tla (strict DER decoders / canonical encoders as executable definitions) with replay of the vectors, TLC evaluation of TextJudge.tla for base64/hex/PEM, composite round trips",
+            "TLC enumerates every byte string up to 4 bytes over a boundary alphabet behind each primitive tag and computes verdict, value and consumed length (length, INTEGER, int, BOOLEAN, BIT STRING, OID), canonical encodings of integers, OIDs and "
+            "times across the UTCTime/GeneralizedTime switch, and UTF-8/Printable/IA5 validity; the library must agree on each vector. Base64/hex/PEM are judged by TLC against RFC 4648 definitions in all chunkings, with malformed text and capacities "
+            "around the data size; composite objects round-trip with dry-run length = written length and identical re-encoding; wrong passwords never open a key.",
+            "Trusted: TLC and the TLA+ definitions. Tolerated (either answer): non-minimal OID subidentifiers, non-zero BIT STRING padding bits, the empty bit string, invalid UTF-8, base64 spare bits.",
+            "4/C14"),
     "C18": ("fault_enumeration",
             "TLC model checking of Entropy.tla + link-time getentropy interposition with a failure injected at every draw index, validated against EntropyTrace.tla",
             "Every randomised API operation and the three handshakes in both roles are run clean, on an equal and a different entropy stream, repeated within one stream, and with the source failing at each draw index; "
